@@ -110,12 +110,12 @@ def build(cfg, values=None):
             calls.append(1)
             lam = type('Lam', (), {})()
             F = sym_F(ctx, 8)
-            t = plyts[0] if plyts else None
-            d_ = t.describe() if isinstance(t, Sym) else None
-            before = (d_ and d_[0] == 'var' and d_[1].endswith('_before')) if values is None else (
-                isinstance(t, Sym) and 'plyt_before' in ctx.used_values and t.is_numeric() and t.n == ctx.used_values['plyt_before'])
-            if before:
-                F = F * V('laminate_before_factor')       # another ply thickness: another laminate
+            for t, tag in ((plyts[0] if plyts else None, 'plyt_before'), (laminaprops[0][0] if laminaprops and laminaprops[0] else None, 'E_before')):
+                d_ = t.describe() if isinstance(t, Sym) else None
+                before = (d_ and d_[0] == 'var' and d_[1].endswith('_before')) if values is None else (
+                    isinstance(t, Sym) and tag in ctx.used_values and t.is_numeric() and t.n == ctx.used_values[tag])
+                if before:
+                    F = F * V('laminate_before_factor_' + tag)       # another ply thickness / material: another laminate
             lam.ABDE = F
             lam.ABD = F[0:6, 0:6].copy()
             return lam
@@ -145,6 +145,8 @@ def build(cfg, values=None):
                         return R if nF == 8 else R[0:6, 0:6].copy()
                     if val == 'EMPTY':
                         return []
+                    if isinstance(val, (list, tuple)):
+                        return type(val)(value(x) for x in val)
                     return V(val) if isinstance(val, str) else val
                 # via='calc_k0': through the public accessor of the (stored) reduced stiffness that Analysis.static calls
                 ev = (lambda o: o.calc_k0(silent=True)) if cfg.get('via') == 'calc_k0' else (lambda o: o._calc_linear_matrices(silent=True))
@@ -378,12 +380,12 @@ def build(cfg, values=None):
         def read_stack(stack, plyts=None, laminaprops=None, **kw):
             lam = type('Lam', (), {})()
             F = sym_F(ctx, 8)
-            t = plyts[0] if plyts else None
-            d_ = t.describe() if isinstance(t, Sym) else None
-            before = (d_ and d_[0] == 'var' and d_[1].endswith('_before')) if values is None else (
-                isinstance(t, Sym) and 'plyt_before' in ctx.used_values and t.is_numeric() and t.n == ctx.used_values['plyt_before'])
-            if before:
-                F = F * V('laminate_before_factor')       # another ply thickness: another laminate
+            for t, tag in ((plyts[0] if plyts else None, 'plyt_before'), (laminaprops[0][0] if laminaprops and laminaprops[0] else None, 'E_before')):
+                d_ = t.describe() if isinstance(t, Sym) else None
+                before = (d_ and d_[0] == 'var' and d_[1].endswith('_before')) if values is None else (
+                    isinstance(t, Sym) and tag in ctx.used_values and t.is_numeric() and t.n == ctx.used_values[tag])
+                if before:
+                    F = F * V('laminate_before_factor_' + tag)       # another ply thickness / material: another laminate
             lam.ABDE = F
             lam.ABD = F[0:6, 0:6].copy()
             return lam
